@@ -304,30 +304,43 @@ impl ClipCtx {
                 out[i] = vec![0];
                 continue;
             }
-            let mut cands: Vec<f64> = vec![1.0];
+            // candidates are intervals [lo, hi] of the real product: merging close candidates widens the
+            // interval instead of dropping values, so a product that may round to 0 or to 1 keeps both bytes
+            let mut cands: Vec<(f64, f64)> = vec![(1.0, 1.0)];
             for e in &self.entries {
                 if let ClipEntry::Path(c) = e {
-                    let mut next = Vec::new();
+                    let mut next: Vec<(f64, f64)> = Vec::new();
                     for v in &cands {
                         for b in &c[i] {
-                            let p = v * (*b as f64 / 255.0);
-                            if !next.iter().any(|q: &f64| (q - p).abs() < 1e-12) {
-                                next.push(p);
-                            }
+                            let f = *b as f64 / 255.0;
+                            next.push((v.0 * f, v.1 * f));
                         }
                     }
                     // keep every candidate (dropping some would make the oracle reject correct pixels); merge
                     // those closer than a quarter of a byte so that the set stays below about a thousand values
                     next.sort_by(|a, b| a.partial_cmp(b).unwrap());
-                    next.dedup_by(|a, b| (*a - *b).abs() < 0.25 / 255.0);
-                    cands = next;
+                    let mut merged: Vec<(f64, f64)> = Vec::new();
+                    for (lo, hi) in next {
+                        match merged.last_mut() {
+                            Some(m) if lo - m.0 < 0.25 / 255.0 => m.1 = m.1.max(hi),
+                            _ => merged.push((lo, hi)),
+                        }
+                    }
+                    cands = merged;
                 }
             }
             let mut bytes: Vec<u32> = Vec::new();
-            for p in cands {
-                let b = (p * 255.0).round() as u32;
-                if !bytes.contains(&b) {
-                    bytes.push(b);
+            for (lo, hi) in cands {
+                let (b0, b1) = ((lo * 255.0).round() as u32, (hi * 255.0).round() as u32);
+                for b in b0..=b1 {
+                    if !bytes.contains(&b) {
+                        bytes.push(b);
+                    }
+                }
+                // a positive product is never certainly zero: the chained byte products of the implementation
+                // may round it to 0 or to 1
+                if hi > 0.0 && b1 == 0 && !bytes.contains(&1) {
+                    bytes.push(1);
                 }
             }
             // all-zero product must be exactly zero; all-full exactly 255 (products of 0/255 are exact)
